@@ -143,22 +143,25 @@ def restart_helper(S, rep):
            "rod_time = %s" % (ast.unparse(rt) if rt is not None else None), key="C18.b|rod_time")
 
 
+def sim_liveness(S, cfg, rep):
+    run = stepped_sim(S, cfg)
+    lab = "time_step " + run.label()
+    if run.raised is not None or run.problems or run.store is None:
+        rep.ob("C18.a", lab, False, "time step cannot be analysed: %s %s" % (run.raised, [p.msg for p in run.problems][:2]),
+               key="C18.a|%s|raises" % lab)
+        return
+    liveness(rep, lab, run.store, run.trace, run.inst, SIM_PUBLIC, SIM_OUTPUT,
+             extra_inputs={op.arr.alloc.id for op in run.trace if op.kind == "ElemRead" and op.arr.alloc.label == "free_stream"})
+
+
 def run(S, tier, rep):
     rep.rule_text = ("C18.a liveness over every step / interaction trace: the transitive roots (initial array contents) of every public "
                      "output must be public state or arrays the step never writes; C18.b flow rules on restart_simulation")
     rep.explanation = ("contents are tracked per region by the symbolic store, so a scratch buffer counts as overwritten only where "
                        "Interior(g) and the reset ring really cover it; external operations (FFT, numba kernels) propagate dependence")
-    for kind in ("2d", "3d", "passive"):
-        for cfg in sim_configs(kind, tier):
-            run = stepped_sim(S, cfg)
-            lab = "time_step " + run.label()
-            if run.raised is not None or run.problems or run.store is None:
-                rep.ob("C18.a", lab, False, "time step cannot be analysed: %s %s" % (run.raised, [p.msg for p in run.problems][:2]),
-                       key="C18.a|%s|raises" % lab)
-                continue
-            fs = {a.alloc.id for a in [] }
-            liveness(rep, lab, run.store, run.trace, run.inst, SIM_PUBLIC, SIM_OUTPUT,
-                     extra_inputs={op.arr.alloc.id for op in run.trace if op.kind == "ElemRead" and op.arr.alloc.label == "free_stream"})
+    from .simtools import parallel_over
+    cfgs = [cfg for kind in ("2d", "3d", "passive") for cfg in sim_configs(kind, tier)]
+    parallel_over(S, rep, "sa.props.c18", "sim_liveness", cfgs)
     for lab, tr, pr, raised, inst in coupling_traces(S):
         if raised is not None or inst is None:
             rep.ob("C18.a", lab, False, "interaction cannot be analysed: %s" % raised, key="C18.a|%s|raises" % lab)
